@@ -22,6 +22,14 @@ Next ==
     /\ i <= Len(Wins)
     /\ \A m \in DOMAIN Wins[i].final.mb :
           \A c \in FileAgrees(Mb(Wins[i].final.mb[m])) : PrintT(<<"VIOL", i, m, c>>)
+    \* a window during which an external agent delivered (folder mtime advanced): once every session has
+    \* passed a sync point (`settled` = the state after the NOOPs that follow), every message file of the
+    \* folder is a message of the mailbox (C13: "announced ... once the modification time has advanced")
+    /\ ("settled" \in DOMAIN Wins[i]) =>
+          \A m \in DOMAIN Wins[i].settled.mb :
+              LET x == Mb(Wins[i].settled.mb[m]) IN
+              (\E f \in x.files : \A j \in DOMAIN x.msgs : x.msgs[j].key # f[1])
+                  => PrintT(<<"VIOL", i, m, "C13.AnnouncedAfterSync">>)
     /\ (i = Len(Wins)) => PrintT(<<"DONE", i>>)
     /\ i' = i + 1
 Spec == Init /\ [][Next]_i
